@@ -219,6 +219,7 @@ func (b *BoardID_t) IsValid() bool {
 		return false
 	}
 	for idx := 1; idx < lenB; idx++ {
+		ch = b[idx]
 		if !types.Isalnum(ch) && ch != '_' && ch != '-' && ch != '.' {
 			return false
 		}
